@@ -48,6 +48,9 @@ func (g *gen) coord() int {
 
 func (g *gen) vecN(n int) []int {
 	v := make([]int, n)
+	if g.r.Intn(6) == 0 {
+		return v // exact zero vector: identity translations, zero origins, degenerate boxes
+	}
 	for i := range v {
 		v[i] = g.coord()
 	}
@@ -252,7 +255,7 @@ func (g *gen) step() Step {
 	case 0, 1, 2, 3:
 		// Append: prefer a partner of the same topology
 		t := live[g.r.Intn(len(live))]
-		for try := 0; try < 4 && g.pool[t-1].Topology() != m.Topology(); try++ {
+		for try := 0; try < 4 && g.pool[t-1].Topology() != m.Topology() && g.r.Intn(8) != 0; try++ {
 			t = live[g.r.Intn(len(live))]
 		}
 		return Step{Op: "Append", Dst: dst, Src: []int{s, t}, Args: args()}
